@@ -264,6 +264,22 @@ pub fn pair<H: Shape + Tagged, T: Shape>(out: &mut Vec<Value>) {
                     m["thin_one_word"] = json!(size_of::<ThinArc<H, T>>() == 8 && size_of::<Option<ThinArc<H, T>>>() == 8);
                     m["thin_refcnt_as_ptr_is_block"] = json!(<ThinArc<H, T> as arc_swap::RefCnt>::as_ptr(&t) as usize == heap);
                     m["thin_pointer_fmt_is_block"] = json!(format!("{:p}", t) == format!("{:p}", heap as *const u8));
+                    if ctor == "fat_into_thin" && path == "drop_thin" {
+                        // a recorded length that disagrees with the slice length is refused, also when both lengths
+                        // give the same (padded) block layout
+                        let refused = |rec: usize| {
+                            let a = Arc::from_header_and_iter(HeaderWithLength::new(H::fill(0x78), rec), elems::<T>(n).into_iter());
+                            std::panic::catch_unwind(std::panic::AssertUnwindSafe(move || {
+                                let t = Arc::into_thin(a);
+                                std::mem::forget(t);
+                            }))
+                            .is_err()
+                        };
+                        m["into_thin_refuses_longer"] = json!(refused(n + 1) && refused(n + 2));
+                        if n > 0 {
+                            m["into_thin_refuses_shorter"] = json!(refused(n - 1));
+                        }
+                    }
                     (heap, m, Box::new(move || match path {
                         "drop_thin" => drop(t),
                         "from_thin_drop" => drop(Arc::from_thin(t)),
